@@ -24,7 +24,7 @@ func p(kv ...interface{}) map[string]int {
 var checks = []*CheckSpec{
 	{
 		Prop:    "C06",
-		Harness: []string{"c06_expr.go"},
+		Harness: []string{"c06_expr.go", "c06_edges.go"},
 		Entries: []EntrySpec{
 			{Pkg: "datalog", Func: "VerifC06Binary", Quick: p(), Thorough: p(), Covers: []string{"evaluated", "error", "value"}},
 			{Pkg: "datalog", Func: "VerifC06Unary", Quick: p(), Thorough: p(), Covers: []string{"evaluated"}},
@@ -32,6 +32,7 @@ var checks = []*CheckSpec{
 			{Pkg: "datalog", Func: "VerifC06StrIndex", Quick: p(), Thorough: p(), Covers: []string{"evaluated"}},
 			{Pkg: "datalog", Func: "VerifC06Sequence", Quick: p("len", 2), Thorough: p("len", 3), Covers: []string{"evaluated"}},
 			{Pkg: "datalog", Func: "VerifC06Stack", Quick: p("pushes", 1001), Thorough: p("pushes", 1001), Covers: []string{"evaluated"}},
+			{Pkg: "datalog", Func: "VerifC06ArithEdges", Quick: p(), Thorough: p(), Covers: []string{"evaluated"}},
 		},
 		Assumptions: append([]string{
 			"bounds: sets of <= 2 duplicate-free elements, byte arrays <= 2 bytes, symbol strings <= 2 (quick) / 3 (thorough) bytes, operator sequences <= 2 (quick) / 3 (thorough) operations; all 64-bit scalar values symbolic",
@@ -76,7 +77,7 @@ func init() {
 		Prop:    "C11",
 		Harness: []string{"c06_expr.go", "c05_fixpoint.go", "c11_limits.go", "c01_chain.go", "authz_gen.go", "c11_authz.go"},
 		Entries: []EntrySpec{
-			{Pkg: "datalog", Func: "VerifC11Limits", Quick: p("depth", 2), Thorough: p("depth", 3), Covers: []string{"returned", "success", "error"}},
+			{Pkg: "datalog", Func: "VerifC11Limits", Quick: p("depth", 3), Thorough: p("depth", 4), Covers: []string{"returned", "success", "error"}},
 			{Pkg: "datalog", Func: "VerifC11Outcomes", Quick: p(), Thorough: p(), Covers: []string{"returned", "invalid-rule", "expr-error"}},
 			{Pkg: "biscuit", Func: "VerifC11AuthorizerLimits", Quick: p(), Thorough: p(), Covers: []string{"authorized", "refused", "allowed"}},
 		},
